@@ -763,7 +763,7 @@ func dumpEqual(a, b map[string]string) (string, bool) {
 }
 
 func TestPropTamperedBlocksRejected(t *testing.T) {
-	stats.Check(t, stats.Budget{Quick: 250, Thorough: 5000},
+	stats.Check(t, stats.Budget{Quick: 1000, Thorough: 5000},
 		"valid generated chain of 1-5 blocks (reference-sealed, all tx kinds/versions); one block p is cloned and ONE committed field is tampered (table of ~150 spec-derived tampers: header, per-version tx fields with stored or recomputed tx hash, signature, receipts, events, messages, state-diff entries with stored or recomputed block hash, roots, class bodies, linkage, version); oracle: untampered chain accepted, tampered block rejected by SanityCheckNewHeight or Store on both backends, raw DB image and event answers identical before/after the rejection, the valid block p is then accepted; non-trivial = every case (a committed field really changed); classes reported per tamper name",
 		func(rt *rapid.T, c *stats.Case) {
 			u := gen.NewUniverse(rt)
